@@ -150,11 +150,38 @@ func multiTop(t string) bool {
 	return rest != "" && (rest[0] == '{' || rest[0] == '[')
 }
 
+// finalAssistantItem: when the response lists several assistant/model messages, "the
+// provider's final answer" is the last of them; earlier ones are drafts. The body is reduced
+// to that item (any other shape is returned unchanged).
+func finalAssistantItem(body []byte) []byte {
+	var v struct {
+		Items []json.RawMessage `json:"items"`
+	}
+	if json.Unmarshal(body, &v) != nil || len(v.Items) < 2 {
+		return body
+	}
+	last, n := -1, 0
+	for i, it := range v.Items {
+		var h struct {
+			Role string `json:"role"`
+		}
+		if json.Unmarshal(it, &h) == nil && (h.Role == "assistant" || h.Role == "model") {
+			last = i
+			n++
+		}
+	}
+	if n < 2 {
+		return body
+	}
+	return v.Items[last]
+}
+
 // mayHaveAnswered applies the reference to one response as it went over the wire.
 func mayHaveAnswered(status int, delivered bool, body []byte, pred func([]byte) bool) bool {
 	if !delivered || status != 200 {
 		return false
 	}
+	body = finalAssistantItem(body)
 	for _, t := range candidateTexts(body) {
 		if carries(t, pred) && !multiTop(t) {
 			return true
